@@ -2,19 +2,7 @@
 """Regenerate /verif/MANIFEST.json from the table below (kept in one place so that it stays consistent)."""
 import json, os
 ROOT = os.path.dirname(os.path.dirname(os.path.abspath(__file__)))
-TECH = "bounded symbolic execution of the real Python functions (CrossHair + z3), counterexamples replayed"
-# property -> (design_ref, level text, level note, technique)
-CHECKS = {
- "C20": ("DESIGN.md §6 C20",
-         "Bounded model checking by symbolic execution: CrossHair runs trees.parse_label/format_label on a symbolic "
-         "string (all strings up to length 4 quick / 6 thorough over A 1 - = # ' *, plus the default literals spliced "
-         "in at a symbolic position) and trees.get_label on symbolic option subsets; z3 exhausts the path tree, so "
-         "inside the bound the verdict covers every string, not a sample. Right level: the property is a for-all over "
-         "strings and the kernel is pure string code that CrossHair models natively.",
-         "Trusted: CrossHair's string model and z3; the reference splitter in harness/c20.py (25 lines); alphabet of 7 "
-         "representative characters; strings beyond the bound are outside the claim.",
-         TECH),
-}
+exec(open(os.path.join(ROOT, 'tools', 'manifest_table.py')).read())
 NOT_YET = "check not built yet in this round (planned, see DESIGN.md §6)"
 props = [json.loads(l)["id"] for l in open(os.path.join(ROOT, "properties.jsonl"))]
 m = {
@@ -25,7 +13,8 @@ m = {
            "baseline_off_cmd": "cd /repo && /venv/bin/python -m pytest -ra -q -p no:cacheprovider --timeout=900 "
                                "--continue-on-collection-errors",
            "source_commits": [], "add_only": True},
- "engines": [{"name": "crosshair", "path": "vlib/", "serves_properties": sorted(CHECKS),
+ "engines": [{"name": "pysym", "path": "vlib/pysym.py", "serves_properties": ["C17"], "kind_free_text": "symbolic interpreter over the AST of the current /repo source (z3 Int / QF_BVFP, cvc5 second opinion), translation validated against the real function on every run"},
+             {"name": "crosshair", "path": "vlib/", "serves_properties": sorted(CHECKS),
               "kind_free_text": "symbolic execution of the real /repo modules (crosshair-tool 0.0.110, z3 5.1) driven "
                                 "by vlib/worker.py; conditions generated per shard by vlib/cond.py; plain-Python replay"}],
  "checks": [],
